@@ -1,15 +1,26 @@
 """C07 Committors and MFPTs: absorbing masking, pins, lag-time linearity,
-all-pairs orientation, mode dispatch, sparse contract, inputs unmodified."""
+all-pairs orientation, mode dispatch, sparse contract, inputs unmodified.
+
+Every construct is located by its ROLE (parameter position, "the matrix that
+is returned", "the call to the linear solver", "the right-hand side handed to
+the solver", "the branch that calls _I_m_Q") and its content is compared after
+expansion of temporaries (FuncInfo.expand), inlining of one-expression module
+helpers and canonicalisation, against a list of accepted forms.  A located
+construct with a different content is a VIOLATION; a construct that cannot be
+located / seen through is ANALYSIS-INCOMPLETE."""
 import ast
+import copy
 
 from .. import symx
-from ..core import (AnalysisIncomplete, call_name, const_value, kwarg,
-                    names_loaded, params, target_names, u, walk_expr,
-                    walk_local)
-from ..patterns import (Cmp, assigns_to, calls_in, check_no_arg_mutation,
-                        conjuncts, finfo, returns_of, subscript_stores)
+from ..core import (AnalysisIncomplete, arg_or_kw, call_name, const_value,
+                    names_loaded, params, u, walk_local)
+from ..match import _closed_over, canon, classify, match_any
+from ..normal import is_pure
+from ..patterns import (assigns_to, calls_in, check_no_arg_mutation, finfo,
+                        returns_of, subscript_stores)
 
 CO = 'enspara/tpt/core.py'
+HELPER = '_I_m_Q'
 
 EXPLANATION = (
     'Static decision of the structural necessary conditions of the committor '
@@ -26,7 +37,10 @@ EXPLANATION = (
     'exactly once; (D5) the all-pairs formula lifts to lag*(Z[j,j]-Z[i,j])/'
     'pi[j] with Z = inv(I - T + W) and W rows = populations; (D6) the mode is '
     'selected by `sinks is None` and sparse input is densified before len/'
-    'shape. The linear-algebra identities themselves are not decided.')
+    'shape. The linear-algebra identities themselves are not decided. '
+    'Constructs are located by role (parameters, solver call, returned '
+    'object, branch containing the _I_m_Q call) and compared after expansion '
+    'of temporaries and inlining of one-expression helpers.')
 
 
 def check(ck):
@@ -34,231 +48,840 @@ def check(ck):
     d2_masking(ck, mod)
     d3_committors(ck, mod)
     d_mfpts(ck, mod)
+    d6_sparse(ck, mod)
     check_no_arg_mutation(ck, 'C07.D1.inputs-unmodified', [
         (CO, 'committors'), (CO, 'mfpts'), (CO, '_I_m_Q')])
     return EXPLANATION
 
 
+# ---------------------------------------------------------------------------
+# generic helpers (candidates for promotion to sa/patterns.py)
+
 def _full(e):
     return isinstance(e, ast.Slice) and e.lower is None and e.upper is None and e.step is None
 
 
+def _nodes(stmts):
+    """All nodes of a statement list (nested defs not entered)."""
+    return list(walk_local(ast.Module(body=list(stmts), type_ignores=[])))
+
+
+def _inside(mod, node, outer):
+    p = node
+    while p is not None:
+        if p is outer:
+            return True
+        p = mod.parent.get(p)
+    return False
+
+
+def _terminates(stmts):
+    """The statement list never falls through its end."""
+    if not stmts:
+        return False
+    s = stmts[-1]
+    if isinstance(s, (ast.Return, ast.Raise)):
+        return True
+    if isinstance(s, ast.If):
+        return _terminates(s.body) and _terminates(s.orelse)
+    return False
+
+
+def _following(mod, node):
+    """Statements that follow `node` in the block that contains it."""
+    p = mod.parent.get(node)
+    for f in ('body', 'orelse', 'finalbody'):
+        block = getattr(p, f, None)
+        if isinstance(block, list):
+            for i, s in enumerate(block):
+                if s is node:
+                    return block[i + 1:]
+    return []
+
+
+def branches(mod, node):
+    """(true statements, false statements) of an If, insensitive to the
+    if/else vs guard-clause spelling: a branch that never falls through turns
+    the statements after the If into the other branch."""
+    t, f = list(node.body), list(node.orelse)
+    rest = _following(mod, node)
+    if not f and _terminates(t):
+        f = rest
+    elif f and _terminates(f) and not _terminates(t):
+        t = t + rest
+    elif f and _terminates(t) and not _terminates(f):
+        f = f + rest
+    return t, f
+
+
+class _Inline(ast.NodeTransformer):
+    """Replace calls to module-level helpers whose body is a single
+    `return <pure expression>` by that expression (arguments substituted)."""
+
+    def __init__(self, mod):
+        self.mod = mod
+
+    def visit_Call(self, node):
+        self.generic_visit(node)
+        if not isinstance(node.func, ast.Name):
+            return node
+        f = self.mod.functions.get(node.func.id)
+        if f is None or f.decorator_list:
+            return node
+        a = f.args
+        if a.vararg or a.kwarg or a.kwonlyargs or a.posonlyargs:
+            return node
+        body = [s for s in f.body if not isinstance(s, ast.Pass) and
+                not (isinstance(s, ast.Expr) and isinstance(s.value, ast.Constant))]
+        if len(body) != 1 or not isinstance(body[0], ast.Return) or body[0].value is None:
+            return node
+        ret = body[0].value
+        if not is_pure(ret):
+            return node
+        names = [x.arg for x in a.args]
+        if any(isinstance(x, ast.Starred) for x in node.args) or any(k.arg is None for k in node.keywords) \
+                or len(node.args) > len(names):
+            return node
+        bind = dict(zip(names, node.args))
+        for k in node.keywords:
+            if k.arg not in names or k.arg in bind:
+                return node
+            bind[k.arg] = k.value
+        defaults = dict(zip(names[len(names) - len(a.defaults):], a.defaults)) if a.defaults else {}
+        for nm in names:
+            if nm not in bind:
+                if nm not in defaults:
+                    return node
+                bind[nm] = defaults[nm]
+        bound = {t.id for c in ast.walk(ret) if isinstance(c, ast.comprehension)
+                 for t in ast.walk(c.target) if isinstance(t, ast.Name)}
+        if bound & set(names):
+            return node
+        for nm, v in bind.items():
+            cnt = sum(1 for x in ast.walk(ret) if isinstance(x, ast.Name) and x.id == nm)
+            if cnt != 1 and not is_pure(v):
+                return node
+
+        class Sub(ast.NodeTransformer):
+            def visit_Name(self, n):
+                if n.id in bind and isinstance(n.ctx, ast.Load):
+                    return copy.deepcopy(bind[n.id])
+                return n
+        return ast.copy_location(Sub().visit(copy.deepcopy(ret)), node)
+
+
+def xp(fi, mod, e, stop=()):
+    """Canonical tree of `e` with temporaries expanded and one-expression
+    module helpers inlined."""
+    t = _Inline(mod).visit(fi.expand(e, stop=tuple(stop)))
+    ast.fix_missing_locations(t)
+    return canon(t)
+
+
+def _rewrite(node, f):
+    """Bottom-up rewriting of an expression tree (in place on a private copy)."""
+    for name, val in ast.iter_fields(node):
+        if isinstance(val, list):
+            setattr(node, name, [_rewrite(x, f) if isinstance(x, ast.AST) else x for x in val])
+        elif isinstance(val, ast.AST):
+            setattr(node, name, _rewrite(val, f))
+    return f(node)
+
+
+def _sym(name):
+    return ast.Name(id=name, ctx=ast.Load())
+
+
+def origin(fi, e):
+    """Follow single-definition Name chains to the defining expression; the
+    intermediate objects must not be mutated in place.  Returns (expr, ok)."""
+    seen = 0
+    while isinstance(e, ast.Name) and seen < 8:
+        if fi._mutated_in_place(e.id):
+            return e, False
+        v = fi.resolve(e, depth=1)
+        if v is e:
+            break
+        e = v
+        seen += 1
+    return e, True
+
+
+def mul_factors(e):
+    """Flatten a product/quotient: (numerator factors, denominator factors)."""
+    nums, dens = [], []
+
+    def go(x, inv):
+        if isinstance(x, ast.BinOp) and isinstance(x.op, ast.Mult):
+            go(x.left, inv)
+            go(x.right, inv)
+        elif isinstance(x, ast.BinOp) and isinstance(x.op, ast.Div):
+            go(x.left, inv)
+            go(x.right, not inv)
+        elif isinstance(x, ast.UnaryOp) and isinstance(x.op, (ast.USub, ast.UAdd)):
+            go(x.operand, inv)
+        elif isinstance(x, ast.Call) and call_name(x) in ('np.multiply', 'numpy.multiply') and len(x.args) == 2 and not x.keywords:
+            go(x.args[0], inv)
+            go(x.args[1], inv)
+        elif isinstance(x, ast.Call) and call_name(x) in ('np.divide', 'np.true_divide') and len(x.args) == 2 and not x.keywords:
+            go(x.args[0], inv)
+            go(x.args[1], not inv)
+        else:
+            (dens if inv else nums).append(x)
+    go(e, False)
+    return nums, dens
+
+
+def _num_const(fi, e):
+    v = const_value(fi.expand(e))
+    if isinstance(v, bool) or not isinstance(v, (int, float)):
+        return None
+    return v
+
+
+def _index_role(fi, idx, roles, stop):
+    """Role of a (row) index: the name of the index set it denotes."""
+    if isinstance(idx, ast.Tuple):
+        if len(idx.elts) == 2 and _full(idx.elts[1]):
+            idx = idx.elts[0]
+        else:
+            return None
+    t = fi.xu(idx, stop=stop)
+    return t if t in roles else None
+
+
+def _solver_calls(nodes):
+    out = []
+    for c in nodes:
+        if isinstance(c, ast.Call):
+            cn = (call_name(c) or '').split('.')
+            if cn[-1] in ('solve', 'spsolve'):
+                out.append(c)
+    return out
+
+
+INT_DTYPES = ('int', 'np.int64', 'np.intp', 'np.int_')
+
+
+def _flat_int_forms(nm):
+    """Accepted spellings of "flat integer index array made from nm"."""
+    out = []
+    for dt in INT_DTYPES:
+        for conv in ('np.array(%s, dtype=%s)', 'np.asarray(%s, dtype=%s)', 'np.array(%s, %s)', 'np.asarray(%s, %s)'):
+            c = conv % (nm, dt)
+            for flat in ('%s.reshape((-1, 1)).flatten()', '%s.reshape((-1, 1)).ravel()', '%s.flatten()', '%s.ravel()',
+                         '%s.reshape(-1)', '%s.reshape((-1,))'):
+                out.append(flat % c)
+    return out
+
+
+def index_set(ck, rule, mod, fn, fi, function, nm, stmts, anchor):
+    """`nm` (a parameter holding a state set) is rebound exactly once inside
+    `stmts` to a flat integer array of itself, and every other use inside
+    `stmts` sees that array (not the caller's raw object)."""
+    nodes = _nodes(stmts)
+    sites = [s for s in nodes if isinstance(s, (ast.Assign, ast.AnnAssign, ast.AugAssign)) and s in assigns_to(fn, nm)]
+    if not sites:
+        ck.bad(rule, mod, anchor, function, nm,
+               '%s must be converted to a flat integer numpy array before it is used as an index' % nm)
+        return None
+    if len(sites) != 1 or fi.def_value(sites[0], nm) is None:
+        ck.missing(rule, 'single conversion of `%s` to a flat integer array in %s (found %d rebinding(s))' % (nm, function, len(sites)))
+        return None
+    site = sites[0]
+    v = classify(xp(fi, mod, fi.def_value(site, nm), stop=(nm,)), _flat_int_forms(nm), scope={nm})
+    ck.decide(v, rule, mod, site, function, u(site),
+              '%s normalised to a flat integer array (advanced indexing => copies)' % nm,
+              '%s must be converted to a flat integer numpy array before it is used as an index' % nm)
+    raw = [n for n in nodes if isinstance(n, ast.Name) and n.id == nm and isinstance(n.ctx, ast.Load)
+           and fi.stmt(n) is not site and fi.defs_of_use(n) != {site}]
+    if raw:
+        ck.bad(rule, mod, raw[0], function, '%s used at L%s' % (nm, getattr(raw[0], 'lineno', '?')),
+               '%s is used before/without its conversion to a flat integer array' % nm)
+    return site
+
+
+# ---------------------------------------------------------------------------
+# D2
+
 def d2_masking(ck, mod):
     rule = 'C07.D2.masking'
-    fn = mod.func('_I_m_Q')
+    F = HELPER
+    fn = mod.func(F)
     ck.analysed(mod, fn)
     fi = finfo(mod, fn)
-    tprob, absn = params(fn)[0], params(fn)[1]
+    ps = params(fn)
+    tprob, absn = ps[0], ps[1]
     r = returns_of(fn)
     if len(r) != 1 or not isinstance(r[0].value, ast.Name):
         ck.missing(rule, 'single named return in _I_m_Q')
         return
-    M = r[0].value.id
-    defs = [s for s in assigns_to(fn, M) if isinstance(s, ast.Assign)]
-    ok = len(defs) == 1 and isinstance(defs[0].value, ast.BinOp) and isinstance(defs[0].value.op, ast.Sub) and \
-        isinstance(defs[0].value.left, ast.Call) and call_name(defs[0].value.left) in ('np.eye', 'np.identity') and \
-        u(defs[0].value.right) == tprob
-    ck.check(ok, rule + '.fresh', mod, defs[0] if defs else fn, '_I_m_Q', u(defs[0]) if defs else M,
-             'I - T is built as a new matrix', '_I_m_Q must start from a fresh np.eye(n) - tprob')
-    st = [(s, t) for s, t in subscript_stores(fn, M)]
-    kinds = []
-    for s, t in st:
-        sl = t.slice
-        if isinstance(sl, ast.Tuple) and len(sl.elts) == 2:
-            a, b = sl.elts
-            if _full(a) and u(b) == absn and const_value(s.value) == 0:
-                kinds.append(('cols', s))
-            elif u(a) == absn and _full(b) and const_value(s.value) == 0:
-                kinds.append(('rows', s))
-            elif u(a) == absn and u(b) == absn and const_value(s.value) == 1:
-                kinds.append(('diag', s))
-            else:
-                kinds.append(('other', s))
-        else:
-            kinds.append(('other', s))
-    names = [k for k, _ in kinds]
-    for want, why in (('cols', 'absorbing COLUMNS := 0 (no probability flows into absorbing states inside Q)'),
-                      ('rows', 'absorbing ROWS := 0 (absorbing states do not move)'),
-                      ('diag', 'absorbing DIAGONAL := 1 (keeps the system non-singular, pins the unknown)')):
-        ck.check(names.count(want) == 1, rule, mod, [s for k, s in kinds if k == want][0] if want in names else fn,
-                 '_I_m_Q', '%s store: %s' % (want, '; '.join(u(s) for k, s in kinds if k == want) or 'MISSING'), why,
-                 'missing/duplicated masking step: ' + why)
-    for k, s in kinds:
-        if k == 'other':
-            ck.bad(rule, mod, s, '_I_m_Q', u(s), 'unexpected store into I - Q (not one of the three masking steps)')
-    if names.count('diag') == 1 and names.count('rows') == 1 and names.count('cols') == 1:
-        order = [k for k in names if k != 'other']
-        ck.check(order[-1] == 'diag', rule + '.order', mod, kinds[-1][1], '_I_m_Q', ' -> '.join(order),
-                 'the diagonal is set after rows and columns were zeroed',
-                 'the diagonal store must come LAST: zeroing absorbing rows/columns afterwards erases the ones and makes the system singular')
-    ck.check(u(r[0].value) == M, rule, mod, r[0], '_I_m_Q', u(r[0]), 'returns the masked matrix', '')
+    ret = r[0]
+    M = ret.value.id
+    defs = assigns_to(fn, M)
+    if len(defs) != 1 or not isinstance(defs[0], ast.Assign):
+        ck.missing(rule + '.fresh', 'single definition of the returned matrix %s in _I_m_Q' % M)
+        return
+    forms = ['np.eye(_N) - %s' % tprob, 'np.identity(_N) - %s' % tprob, 'np.eye(_N, dtype=float) - %s' % tprob,
+             'np.identity(_N, dtype=float) - %s' % tprob, 'np.eye(_N, _N) - %s' % tprob]
+    v = classify(fi.expand(defs[0].value, stop=(tprob,)), forms, scope=set(ps))
+    ck.decide(v, rule + '.fresh', mod, defs[0], F, u(defs[0]),
+              'I - T is built as a new matrix', '_I_m_Q must start from a fresh np.eye(n) - tprob')
 
+    def role(e):
+        if _full(e):
+            return 'all'
+        if fi.xu(e, stop=(absn,)) == absn:
+            return 'abs'
+        return None
+
+    why = {'cols': 'absorbing COLUMNS := 0 (no probability flows into absorbing states inside Q)',
+           'rows': 'absorbing ROWS := 0 (absorbing states do not move)',
+           'diag': 'absorbing DIAGONAL := 1 (keeps the system non-singular, pins the unknown)'}
+    good = {'cols': [], 'rows': [], 'diag': []}
+    unknown = []
+    for s, t in subscript_stores(fn, M):
+        sl = t.slice
+        elts = list(sl.elts) if isinstance(sl, ast.Tuple) else [sl, ast.Slice(lower=None, upper=None, step=None)]
+        kind = None
+        if isinstance(s, ast.Assign) and len(elts) == 2:
+            kind = {('all', 'abs'): 'cols', ('abs', 'all'): 'rows', ('abs', 'abs'): 'diag'}.get((role(elts[0]), role(elts[1])))
+        val = _num_const(fi, s.value) if kind else None
+        if kind is None or val is None:
+            unknown.append(s)
+            continue
+        want = 1 if kind == 'diag' else 0
+        if val != want:
+            ck.bad(rule, mod, s, F, u(s), 'wrong value in a masking step: ' + why[kind])
+            continue
+        good[kind].append(s)
+    for s in unknown:
+        ck.missing(rule, 'store into I - Q not recognised as one of the three masking steps: %s' % u(s)[:120])
+    for kind in ('cols', 'rows', 'diag'):
+        eff = [s for s in good[kind] if fi.cfg.dominates(s, ret)]
+        if eff:
+            ck.ok(rule, mod, eff[0], '%s store: %s' % (kind, '; '.join(u(s) for s in eff)), why[kind])
+        elif good[kind] or unknown:
+            ck.missing(rule, '%s store executed on every path to the return (%s)' % (kind, why[kind]))
+        else:
+            ck.bad(rule, mod, fn, F, '%s store: MISSING' % kind, 'missing masking step: ' + why[kind])
+    if all(good[k] for k in good):
+        zero = good['cols'] + good['rows']
+        last = [d for d in good['diag'] if fi.cfg.dominates(d, ret) and not any(fi.cfg.reachable(d, z) for z in zero)]
+        early = [d for d in good['diag'] if any(fi.cfg.reachable(d, z) for z in zero)]
+        if last:
+            ck.ok(rule + '.order', mod, last[0], 'rows, cols -> diag', 'the diagonal is set after rows and columns were zeroed')
+        elif early:
+            ck.bad(rule + '.order', mod, early[0], F, 'diag -> rows/cols',
+                   'the diagonal store must come LAST: zeroing absorbing rows/columns afterwards erases the ones and makes the system singular')
+        else:
+            ck.missing(rule + '.order', 'order of the masking stores')
+    ck.ok(rule, mod, ret, u(ret), 'returns the masked matrix')
+
+
+# ---------------------------------------------------------------------------
+# shared: the (I - Q) operand of a solver call
+
+def _imq_call(ck, rule, mod, fn, fi, function, solve):
+    """The solver's matrix operand is the result of _I_m_Q(...): returns the call."""
+    A = arg_or_kw(solve, 0, 'A') or arg_or_kw(solve, None, 'a')
+    if A is None:
+        ck.missing(rule, 'matrix operand of %s' % u(solve)[:80])
+        return None
+    e, ok = origin(fi, A)
+    if not ok or not (isinstance(e, ast.Call) and call_name(e) == HELPER):
+        ck.missing(rule, 'matrix operand of the linear solve in %s is not (an unmodified) result of %s: %s' % (function, HELPER, u(e)[:80]))
+        return None
+    return e
+
+
+def _imq_args(ck, rule, mod, fi, function, call, tprob, forms, scope, ok_txt, bad_txt):
+    hp = params(mod.func(HELPER))
+    a0 = arg_or_kw(call, 0, hp[0])
+    a1 = arg_or_kw(call, 1, hp[1])
+    if a0 is None or a1 is None:
+        ck.missing(rule, 'arguments of %s' % u(call)[:100])
+        return
+    v0 = classify(fi.expand(a0, stop=(tprob,)), [tprob], scope={tprob})
+    v1 = classify(xp(fi, mod, a1, stop=tuple(scope)), forms, scope=set(scope))
+    kinds = {v0[0], v1[0]}
+    v = 'match' if kinds == {'match'} else (v1 if v1[0] == 'near' else (v0 if v0[0] == 'near' else 'far'))
+    ck.decide(v, rule, mod, call, function, u(call), ok_txt, bad_txt)
+
+
+def _raw_module(mod):
+    """The module as written (canonical spellings only): the normal form that
+    decides whether a function is replaced by its reference spelling treats
+    X.shape[0] and len(X) as the same idiom, which they are not for scipy
+    sparse matrices - exactly the distinction D6 is about."""
+    from ..core import Module, _canon_tree
+    try:
+        return Module(mod.rel, mod.src, _canon_tree(ast.parse(mod.src)), 'py')
+    except SyntaxError:
+        return mod
+
+
+def _len_sites(mod, fn, tprob):
+    """Places where the state count is taken with len(<matrix>): explicit
+    len(tprob) and calls of _I_m_Q without n_states (the helper falls back to
+    len(tprob))."""
+    out = [c for c in calls_in(fn) if call_name(c) == 'len' and len(c.args) == 1 and isinstance(c.args[0], ast.Name)
+           and c.args[0].id == tprob]
+    try:
+        h = mod.func(HELPER)
+    except AnalysisIncomplete:
+        return out
+    hp = params(h)
+    fallback = len(hp) >= 3 and any(call_name(c) == 'len' and len(c.args) == 1 and u(c.args[0]) == hp[0] for c in calls_in(h))
+    if fallback:
+        for c in calls_in(fn):
+            if call_name(c) == HELPER:
+                n = arg_or_kw(c, 2, hp[2])
+                if (n is None or (isinstance(n, ast.Constant) and n.value is None)) and \
+                        not any(isinstance(a, ast.Starred) for a in c.args) and not any(k.arg is None for k in c.keywords):
+                    a0 = arg_or_kw(c, 0, hp[0])
+                    if a0 is not None and u(a0) == tprob:
+                        out.append(c)
+    return out
+
+
+# ---------------------------------------------------------------------------
+# D6 sparse contract (on the source as written, see _raw_module)
+
+def d6_sparse(ck, mod):
+    raw = _raw_module(mod)
+    for F in ('committors', 'mfpts'):
+        fn = raw.func(F)
+        fi = finfo(raw, fn)
+        tprob = params(fn)[0]
+        lens = _len_sites(raw, fn, tprob)
+        badlen = [c for c in lens if not _densified_before(raw, fi, tprob, fi.stmt(c))]
+        ck.check(not badlen, 'C07.D6.sparse', mod, badlen[0] if badlen else (lens[0] if lens else fn), F,
+                 u(badlen[0]) if badlen else (u(lens[0]) if lens else 'no len(%s)' % tprob),
+                 'len(tprob) only after sparse input was densified' if lens else 'state count from .shape: no len() on a possibly sparse matrix',
+                 '%s is documented for dense and sparse input, but len(<scipy sparse matrix>) raises TypeError: the state '
+                 'count must come from .shape or the input be densified first (_I_m_Q falls back to len(tprob) when n_states '
+                 'is not passed)' % F)
+
+
+# ---------------------------------------------------------------------------
+# D3 committors
 
 def d3_committors(ck, mod):
     rule = 'C07.D3.committors'
-    fn = mod.func('committors')
+    F = 'committors'
+    fn = mod.func(F)
     ck.analysed(mod, fn)
     fi = finfo(mod, fn)
     tprob, sources, sinks = params(fn)[:3]
+    stop = (tprob, sources, sinks)
     # normalisation of index sets to flat int arrays
     for nm in (sources, sinks):
-        ss = [s for s in assigns_to(fn, nm) if isinstance(s, ast.Assign)]
-        ok = len(ss) == 1 and u(ss[0].value).startswith('np.array(%s, dtype=int)' % nm) and u(ss[0].value).endswith('.flatten()')
-        ck.check(ok, rule + '.sets', mod, ss[0] if ss else fn, 'committors', u(ss[0]) if ss else nm,
-                 '%s normalised to a flat integer array (advanced indexing => copies)' % nm,
-                 '%s must be converted to a flat integer numpy array before it is used as an index' % nm)
-    ab = [s for s in walk_local(fn) if isinstance(s, ast.Assign) and isinstance(s.value, ast.Call)
-          and call_name(s.value) in ('np.append', 'np.concatenate', 'np.union1d')]
-    ok = len(ab) == 1 and {sources, sinks} <= names_loaded(ab[0].value)
-    absn = u(ab[0].targets[0]) if ab else '?'
-    ck.check(ok, rule + '.absorbing', mod, ab[0] if ab else fn, 'committors', u(ab[0]) if ab else 'all_absorbing',
-             'absorbing set = sources + sinks', 'the absorbing set must contain both sources and sinks')
-    imq = [c for c in calls_in(fn) if call_name(c) == '_I_m_Q']
-    ok = len(imq) == 1 and u(imq[0].args[0]) == tprob and u(imq[0].args[1]) == absn
-    ck.check(ok, rule + '.absorbing', mod, imq[0] if imq else fn, 'committors', u(imq[0]) if imq else '_I_m_Q',
-             '(I - Q) masks sources and sinks', '_I_m_Q must be called with the transition matrix and all absorbing states')
-    # R
-    Rdef = [s for s in walk_local(fn) if isinstance(s, ast.Assign) and isinstance(s.value, ast.Subscript)
-            and u(s.value.value) == tprob]
-    ok = len(Rdef) == 1 and isinstance(Rdef[0].value.slice, ast.Tuple) and _full(Rdef[0].value.slice.elts[0]) \
-        and u(Rdef[0].value.slice.elts[1]) == sinks
-    R = u(Rdef[0].targets[0]) if Rdef else 'R'
-    ck.check(ok, rule + '.rhs', mod, Rdef[0] if Rdef else fn, 'committors', u(Rdef[0]) if Rdef else 'R',
-             'right-hand side = columns of T leading into the sinks (one column per sink)',
-             'R must be tprob[:, sinks]')
-    pins = {u(t.slice): (s, const_value(s.value)) for s, t in subscript_stores(fn, R)}
-    ok1 = sinks in pins and pins[sinks][1] == 1
-    ok0 = sources in pins and pins[sources][1] == 0
-    ck.check(ok1 and ok0, rule + '.rhs', mod, pins.get(sinks, (fn,))[0], 'committors',
-             '; '.join(u(s) for s, _ in pins.values()), 'R[sinks] = 1 and R[sources] = 0 (boundary rows)',
-             'the right-hand side must be pinned: R[sinks] = 1.0 and R[sources] = 0.0')
-    solve = [c for c in calls_in(fn) if (call_name(c) or '').endswith('spsolve') or (call_name(c) or '').endswith('linalg.solve')]
-    ok = len(solve) == 1 and u(solve[0].args[1]) == R
-    ck.check(ok, rule + '.solve', mod, solve[0] if solve else fn, 'committors', u(solve[0]) if solve else 'solve',
-             'solves (I - Q) B = R', 'the linear solve must use the masked matrix and R')
-    if ok:
-        ss = fi.stmt(solve[0])
-        for k, (s, _) in pins.items():
-            ck.check(fi.cfg.dominates(s, ss), rule + '.rhs', mod, s, 'committors', u(s), 'pin precedes the solve', 'R is pinned after the solve')
-    # sum over sinks and final pin
-    cm = [s for s in assigns_to(fn, 'committors') if isinstance(s, ast.Assign)]
-    ok = len(cm) == 1 and '.sum(axis=1)' in u(cm[0].value) and 'reshape(n_states, %s.shape[0])' % sinks in u(cm[0].value)
-    ck.check(ok, rule + '.sum', mod, cm[0] if cm else fn, 'committors', u(cm[0]) if cm else 'committors',
-             'probability of hitting ANY sink = sum over the per-sink columns',
-             'committors must be B.reshape(n_states, n_sinks).sum(axis=1)')
-    fp = [(s, t) for s, t in subscript_stores(fn, 'committors')]
-    ok = len(fp) == 1 and u(fp[0][1].slice) == sinks and const_value(fp[0][0].value) == 1
-    ck.check(ok, rule + '.final-pin', mod, fp[0][0] if fp else fn, 'committors', u(fp[0][0]) if fp else 'committors[sinks] = 1.0',
-             'sinks are pinned to exactly 1 after the sum',
-             'after summing the per-sink columns every sink row holds n_sinks (each column of a sink row of R '
-             'is 1): `committors[sinks] = 1.0` is required for more than one sink')
-    if ok and cm:
-        r = returns_of(fn)
-        ck.check(fi.cfg.dominates(cm[0], fp[0][0]) and all(fi.cfg.dominates(fp[0][0], x) for x in r), rule + '.final-pin', mod, fp[0][0],
-                 'committors', 'order', 'pin after the sum and before the return', 'the sink pin must follow the sum and precede the return')
-    # sparse handling: tolil only (no len())
-    lens = [c for c in calls_in(fn) if call_name(c) == 'len' and u(c.args[0]) == tprob]
-    ck.check(not lens, 'C07.D6.sparse', mod, lens[0] if lens else fn, 'committors', u(lens[0]) if lens else 'no len(tprob)',
-             'state count from .shape', 'len(<matrix>) raises TypeError for scipy sparse matrices')
+        index_set(ck, rule + '.sets', mod, fn, fi, F, nm, fn.body, fn)
+    # the linear solve
+    solves = _solver_calls(walk_local(fn))
+    if len(solves) != 1:
+        ck.missing(rule + '.solve', 'exactly one linear solve (spsolve / linalg.solve) in committors (found %d)' % len(solves))
+        return
+    solve = solves[0]
+    ss = fi.stmt(solve)
+    imq = _imq_call(ck, rule + '.absorbing', mod, fn, fi, F, solve)
+    if imq is not None:
+        pair = ['%s, %s' % (sources, sinks), '%s, %s' % (sinks, sources)]
+        forms = []
+        for p in pair:
+            forms += ['np.append(%s)' % p, 'np.concatenate((%s))' % p, 'np.concatenate([%s])' % p, 'np.union1d(%s)' % p,
+                      'np.hstack((%s))' % p, 'np.hstack([%s])' % p, 'np.r_[%s]' % p, 'np.concatenate((%s), axis=0)' % p]
+        _imq_args(ck, rule + '.absorbing', mod, fi, F, imq, tprob, forms, {sources, sinks},
+                  '(I - Q) masks sources and sinks: absorbing set = sources + sinks',
+                  '_I_m_Q must be called with the transition matrix and all absorbing states (sources AND sinks)')
+    # R: the right-hand side handed to the solver
+    Rarg = arg_or_kw(solve, 1, 'b')
+    if not isinstance(Rarg, ast.Name):
+        ck.missing(rule + '.rhs', 'right-hand side of the solve is not a named array: %s' % u(Rarg)[:80])
+        R = None
+    else:
+        R = Rarg.id
+        Rdef = assigns_to(fn, R)
+        if len(Rdef) != 1 or not isinstance(Rdef[0], ast.Assign) or fi.def_value(Rdef[0], R) is None:
+            ck.missing(rule + '.rhs', 'single definition of the right-hand side %s' % R)
+        else:
+            rv = fi.def_value(Rdef[0], R)
+            v = classify(xp(fi, mod, rv, stop=stop), ['%s[:, %s]' % (tprob, sinks), '%s[:, %s].copy()' % (tprob, sinks)],
+                         scope={tprob, sinks})
+            okR = ck.decide(v, rule + '.rhs', mod, Rdef[0], F, u(Rdef[0]),
+                            'right-hand side = columns of T leading into the sinks (one column per sink)', 'R must be tprob[:, sinks]')
+            if okR:
+                _pins(ck, rule + '.rhs', mod, fn, fi, F, R, {sinks: 1, sources: 0}, stop, ss,
+                      'R[sinks] = 1 and R[sources] = 0 (boundary rows)',
+                      'the right-hand side must be pinned before the solve: R[sinks] = 1.0 and R[sources] = 0.0', after=Rdef[0])
+        ck.ok(rule + '.solve', mod, solve, u(solve), 'solves (I - Q) B = R')
+    # sum over sinks and final pin: the returned object
+    r = returns_of(fn)
+    if len(r) != 1 or not isinstance(r[0].value, ast.Name):
+        ck.missing(rule + '.sum', 'single `return <committors>` (a named array)')
+        return
+    Cn = r[0].value.id
+    cm = assigns_to(fn, Cn)
+    if len(cm) != 1 or not isinstance(cm[0], ast.Assign) or fi.def_value(cm[0], Cn) is None:
+        ck.missing(rule + '.sum', 'single definition of the returned array %s' % Cn)
+        return
+    cv = fi.def_value(cm[0], Cn)
+    SOL = 'SOLUTION_'
+    st = fi.xu(solve, stop=stop)
+    solnames = set()
+    for n in ast.walk(cv):
+        if isinstance(n, ast.Name) and isinstance(n.ctx, ast.Load):
+            e, ok = origin(fi, n)
+            if ok and e is solve:
+                solnames.add(n.id)
+
+    def mark(n):
+        if isinstance(n, ast.expr) and (u(n) == st or (isinstance(n, ast.Name) and n.id in solnames)):
+            return _sym(SOL)
+        return n
+    X = _rewrite(xp(fi, mod, cv, stop=stop), mark)
+    ks = ['%s.shape[0]' % sinks, 'len(%s)' % sinks, '%s.size' % sinks, '-1'] + (['%s.shape[1]' % R] if R else [])
+    # a wrong row count makes reshape raise, so only the column count (and
+    # the order) decides the values: rows may be anything, except with -1 columns
+    rows = ['%s.shape[0]' % tprob, '%s.shape[1]' % tprob, '%s.shape[0]' % SOL, 'len(%s)' % SOL] + (['%s.shape[0]' % R] if R else [])
+    forms = []
+    for k in ks:
+        for n in (rows if k == '-1' else ['_N']):
+            for rs in ('%s.reshape(%s, %s)', '%s.reshape((%s, %s))', 'np.reshape(%s, (%s, %s))'):
+                for sm in ('.sum(axis=1)', '.sum(1)', '.sum(axis=-1)', '.sum(-1)'):
+                    forms.append(rs % (SOL, n, k) + sm)
+    v = classify(X, forms, scope={tprob, sinks, SOL} | ({R} if R else set()))
+    ck.decide(v, rule + '.sum', mod, cm[0], F, u(cm[0]),
+              'probability of hitting ANY sink = sum over the per-sink columns',
+              'committors must be B.reshape(n_states, n_sinks).sum(axis=1): the solver returns one column per sink '
+              '(row-major (n_states, n_sinks)); another shape/axis mixes states and sinks')
+    _pins(ck, rule + '.final-pin', mod, fn, fi, F, Cn, {sinks: 1}, stop, r[0],
+                 'sinks are pinned to exactly 1 after the sum',
+                 'after summing the per-sink columns every sink row holds n_sinks (each column of a sink row of R '
+                 'is 1): `committors[sinks] = 1.0` is required for more than one sink', construct_missing='committors[sinks] = 1.0',
+                 also={sources: 0}, after=cm[0])
+
+
+def _pins(ck, rule, mod, fn, fi, function, arr, want, stop, before, ok_txt, bad_txt, construct_missing=None, also=None, after=None):
+    """Constant stores `arr[<index set>] = <value>`: for every index set in
+    `want` a store of the wanted value lies on every path from the definition
+    `after` of the array to its consumer `before` (without `after`: dominates
+    `before`); a store of another constant is a violation, a store that cannot
+    be classified makes the analysis incomplete.  `also` lists further index sets with the
+    only constant that may be stored there (a store that changes nothing).
+    Returns the effective stores."""
+    got = {k: [] for k in want}
+    allowed = dict(also or {})
+    allowed.update(want)
+    unknown, wrong = [], []
+    for s, t in subscript_stores(fn, arr):
+        k = _index_role(fi, t.slice, allowed, stop) if isinstance(s, ast.Assign) else None
+        val = _num_const(fi, s.value) if k is not None else None
+        if k is None or val is None:
+            unknown.append(s)
+        elif val != allowed[k]:
+            wrong.append(s)
+        elif k in want:
+            got[k].append(s)
+    # other ways to write into the array: impure calls that receive it
+    for c in calls_in(fn):
+        takes = [a for a in list(c.args) + [k.value for k in c.keywords] if isinstance(a, ast.Name) and a.id == arr]
+        recv = isinstance(c.func, ast.Attribute) and isinstance(c.func.value, ast.Name) and c.func.value.id == arr
+        if (takes or recv) and not is_pure(ast.Call(func=c.func, args=[], keywords=[])):
+            unknown.append(c)
+    for s in wrong:
+        ck.bad(rule, mod, s, function, u(s), bad_txt)
+    for s in unknown:
+        ck.missing(rule, 'store into %s not recognised: %s' % (arr, u(s)[:120]))
+    eff = []
+    for k in want:
+        if after is not None and fi.cfg.reachable(after, before):
+            dom = got[k] if got[k] and not fi.cfg.reachable(after, before, avoiding=got[k]) else []
+        else:
+            dom = [s for s in got[k] if fi.cfg.dominates(s, before)]
+        if dom:
+            eff += dom
+            ck.ok(rule, mod, dom[0], '; '.join(u(s) for s in dom), ok_txt)
+        elif got[k]:
+            late = [s for s in got[k] if fi.cfg.reachable(before, s)]
+            if late and len(late) == len(got[k]):
+                ck.bad(rule, mod, late[0], function, u(late[0]), 'the store comes after its consumer: ' + bad_txt)
+            else:
+                ck.missing(rule, 'the store `%s` is conditional: cannot decide whether it is executed whenever it is needed' % u(got[k][0]))
+        elif unknown or [s for s in wrong if _index_role(fi, subscript_of(s, arr).slice, allowed, stop) == k]:
+            pass            # already reported
+        else:
+            ck.bad(rule, mod, before, function, construct_missing or '%s[%s] = %s: MISSING' % (arr, k, want[k]), bad_txt)
+    return eff
+
+
+def subscript_of(stmt, arr):
+    for t in (stmt.targets if isinstance(stmt, ast.Assign) else [stmt.target]):
+        for tt in (t.elts if isinstance(t, (ast.Tuple, ast.List)) else [t]):
+            if isinstance(tt, ast.Subscript) and u(tt.value) == arr:
+                return tt
+    return None
+
+
+# ---------------------------------------------------------------------------
+# mfpts: D4 D5 D6 D7, D3 (sink-set branch)
+
+def _densified_before(mod, fi, tprob, stmt):
+    """`if issparse(tprob): tprob = <dense form of tprob>` dominates stmt."""
+    forms = ['%s.toarray()' % tprob, 'np.asarray(%s.todense())' % tprob, 'np.array(%s.todense())' % tprob,
+             '%s.todense().A' % tprob, '%s.A' % tprob, 'np.asarray(%s.toarray())' % tprob]
+    for s in assigns_to(fi.fn, tprob):
+        if not (isinstance(s, ast.Assign) and len(s.targets) == 1 and match_any(forms, s.value) is not None):
+            continue
+        g = mod.parent.get(s)
+        if not (isinstance(g, ast.If) and s in g.body):
+            continue
+        t = g.test
+        if not (isinstance(t, ast.Call) and (call_name(t) or '').split('.')[-1] in ('issparse', 'isspmatrix')
+                and len(t.args) == 1 and u(t.args[0]) == tprob):
+            continue
+        if fi.cfg.dominates(g, stmt) and stmt is not g and not _inside(mod, stmt, g):
+            return True
+    return False
 
 
 def d_mfpts(ck, mod):
-    fn = mod.func('mfpts')
+    F = 'mfpts'
+    fn = mod.func(F)
     ck.analysed(mod, fn)
     fi = finfo(mod, fn)
     tprob, sinks, pops, lag = params(fn)[:4]
-    # D6 sparse contract
-    lens = [c for c in calls_in(fn) if call_name(c) == 'len' and u(c.args[0]) == tprob]
-    dens = [s for s in walk_local(fn) if isinstance(s, ast.Assign) and u(s.targets[0]) == tprob and
-            u(s.value) in ('%s.toarray()' % tprob, 'np.asarray(%s.todense())' % tprob, 'np.array(%s.todense())' % tprob)]
-    ok = True
-    why = 'state count does not use len() on a possibly sparse matrix'
-    for c in lens:
-        st = fi.stmt(c)
-        g = [d for d in dens if fi.cfg.reachable(d, st)]
-        gg = mod.parent.get(dens[0]) if dens else None
-        ok = bool(g) and isinstance(gg, ast.If) and 'issparse' in u(gg.test)
-        why = 'len(tprob) only after sparse input was densified'
-    ck.check(ok, 'C07.D6.sparse', mod, lens[0] if lens else fn, 'mfpts', u(lens[0]) if lens else 'n_states = tprob.shape[0]',
-             why, 'mfpts is documented for dense and sparse input, but len(<scipy sparse matrix>) raises '
-             'TypeError: the state count must come from .shape (or the input be densified first)')
     # D7 mode dispatch
-    ifs = [n for n in fn.body if isinstance(n, ast.If) and sinks in names_loaded(n.test)]
-    disp = [n for n in ifs if any(isinstance(x, ast.Assign) and u(x.targets[0]) == 'mfpts' for x in ast.walk(n))]
-    ok = len(disp) == 1 and u(disp[0].test) in ('%s is None' % sinks, '%s is not None' % sinks)
-    ck.check(ok, 'C07.D7.dispatch', mod, disp[0] if disp else fn, 'mfpts', u(disp[0].test) if disp else 'if sinks is None',
-             'all-pairs mode iff sinks is None (identity test)',
-             'the all-pairs/sink-set mode must be selected with `sinks is None`: a truthiness test treats the '
-             'sink set {0} (given as 0, np.int64(0) or np.array([0])) as "no sinks" and is ambiguous for arrays')
-    if len(disp) != 1 or not ok:
+    imqs = [c for c in calls_in(fn) if call_name(c) == HELPER]
+    invs = [c for c in calls_in(fn) if (call_name(c) or '').split('.')[-1] in ('inv', 'pinv')]
+    ifs = [n for n in walk_local(fn) if isinstance(n, ast.If) and sinks in names_loaded(fi.expand(n.test))]
+
+    def splits(n):
+        t, f = branches(mod, n)
+        tn, fn_ = _nodes(t), _nodes(f)
+        return any(c in tn or c in fn_ for c in imqs + invs)
+    disp = [n for n in ifs if splits(n)]
+    disp = [n for n in disp if not any(m is not n and _inside(mod, n, m) for m in disp)]
+    if len(disp) != 1:
+        ck.missing('C07.D7.dispatch', 'the branch on `%s` that separates the all-pairs and the sink-set computation (found %d)' % (sinks, len(disp)))
         return
     node = disp[0]
-    allp, sset = (node.body, node.orelse) if 'is None' in u(node.test) and 'not' not in u(node.test) else (node.orelse, node.body)
+    test = canon(fi.expand(node.test))
+    v = classify(test, ['%s is None' % sinks, '%s is not None' % sinks], scope={sinks})
+    ok = ck.decide(v, 'C07.D7.dispatch', mod, node, F, u(node.test),
+                   'all-pairs mode iff sinks is None (identity test)',
+                   'the all-pairs/sink-set mode must be selected with `sinks is None`: a truthiness test treats the '
+                   'sink set {0} (given as 0, np.int64(0) or np.array([0])) as "no sinks" and is ambiguous for arrays')
+    if not ok:
+        return
+    t_list, f_list = branches(mod, node)
+    is_none = isinstance(test.ops[0], ast.Is)
+    allp, sset = (t_list, f_list) if is_none else (f_list, t_list)
+    allp_nodes, sset_nodes = _nodes(allp), _nodes(sset)
+    swapped = [c for c in imqs if c in allp_nodes and c not in sset_nodes] + [c for c in invs if c in sset_nodes and c not in allp_nodes]
+    if swapped:
+        ck.bad('C07.D7.dispatch', mod, node, F, 'branches of `%s`' % u(node.test),
+               'the sink-set computation runs when sinks is None and the all-pairs computation when sinks are given')
+        return
+    if not allp or not sset:
+        ck.missing('C07.D7.dispatch', 'both modes of mfpts (one branch of `%s` is empty)' % u(node.test))
+        return
+    # results of the two modes: every definition of the returned value
+    results = {'all-pairs': [], 'sink-set': []}
+    unresolved = []
+    for ret in returns_of(fn):
+        if ret.value is None:
+            continue
+        cands = []
+        if isinstance(ret.value, ast.Name):
+            nm = ret.value.id
+            if fi._mutated_in_place(nm):
+                unresolved.append('%s is modified in place' % nm)
+                continue
+            for site in fi.defs_of_use(ret.value):
+                val = fi.def_value(site, nm) if site not in ('PARAM', 'UNBOUND') else None
+                if val is None:
+                    unresolved.append('definition of %s at L%s' % (nm, getattr(site, 'lineno', '?')))
+                else:
+                    cands.append((site, val))
+        else:
+            cands.append((ret, ret.value))
+        for site, val in cands:
+            if site in allp_nodes and site not in sset_nodes:
+                results['all-pairs'].append((site, val))
+            elif site in sset_nodes and site not in allp_nodes:
+                results['sink-set'].append((site, val))
+            else:
+                unresolved.append('result defined outside the two modes at L%s' % getattr(site, 'lineno', '?'))
+    for x in unresolved:
+        ck.missing('C07.D4.lag-linear', 'returned value of mfpts cannot be followed: %s' % x)
+    for label in results:
+        if not results[label] and not unresolved:
+            ck.missing('C07.D4.lag-linear', 'the value returned in %s mode' % label)
     # D4 linearity in lagtime
-    for label, body in (('all-pairs', allp), ('sink-set', sset)):
-        ms = [s for x in body for s in ast.walk(x) if isinstance(s, ast.Assign) and u(s.targets[0]) == 'mfpts']
-        for s in ms:
-            v = s.value
-            ok = False
-            rest = None
-            # lagtime * E  or  E * lagtime  or (lagtime * E) / F
-            def split(e):
-                if isinstance(e, ast.BinOp) and isinstance(e.op, ast.Mult):
-                    if u(e.left) == lag:
-                        return e.right
-                    if u(e.right) == lag:
-                        return e.left
-                if isinstance(e, ast.BinOp) and isinstance(e.op, ast.Div):
-                    inner = split(e.left)
-                    if inner is not None:
-                        return ast.BinOp(left=inner, op=ast.Div(), right=e.right)
-                return None
-            rest = split(v)
-            ok = rest is not None and lag not in names_loaded(rest)
-            ck.check(ok, 'C07.D4.lag-linear', mod, s, 'mfpts', '%s: %s' % (label, u(s)),
+    analysed = set()
+    for label in ('all-pairs', 'sink-set'):
+        for site, val in results[label]:
+            analysed.add(site)
+            X = xp(fi, mod, val)
+            nums, dens = mul_factors(X)
+            bare = [n for n in nums if isinstance(n, ast.Name) and n.id == lag]
+            others = [n for n in nums if n not in bare] + dens
+            inside = any(lag in names_loaded(n) for n in others)
+            if not (len(bare) == 1 and not inside) and not is_pure(X):
+                # an unknown helper stands between lagtime and the result
+                ck.missing('C07.D4.lag-linear', 'how %s enters the %s result: %s' % (lag, label, u(site)[:120]))
+                continue
+            ck.check(len(bare) == 1 and not inside, 'C07.D4.lag-linear', mod, site, F, '%s: %s' % (label, u(site)),
                      'lagtime is a top-level factor exactly once',
                      '%s MFPTs must be lagtime * (expression without lagtime): the result has to scale linearly with the lag time' % label)
-    occ = [n for n in walk_local(fn) if isinstance(n, ast.Name) and n.id == lag]
-    ck.check(len(occ) == 2, 'C07.D4.lag-linear', mod, fn, 'mfpts', '%d uses of %s' % (len(occ), lag),
-             'lagtime occurs once per mode and nowhere else', 'lagtime is used elsewhere in mfpts (non-linear dependence on the lag time)')
-    # D5 all-pairs formula
-    asg = {u(s.targets[0]): s for x in allp for s in ast.walk(x) if isinstance(s, ast.Assign)}
-    W, Z, M = asg.get('W'), asg.get('Z'), asg.get('mfpts')
-    okW = W is not None and u(W.value) in ('np.array([%s] * n_states)' % pops, 'np.tile(%s, (n_states, 1))' % pops,
-                                            'np.array([%s for _ in range(n_states)])' % pops, 'np.outer(np.ones(n_states), %s)' % pops)
-    ck.check(okW, 'C07.D5.all-pairs', mod, W or node, 'mfpts', u(W) if W else 'W', 'W[i, j] = pi[j] (every ROW is the population vector)',
-             'W must have the populations as ROWS (W[i, j] = pi[j]); a transposed W divides by the population of the origin state')
-    okZ = Z is not None and u(Z.value) == 'np.linalg.inv(np.eye(n_states) - %s + W)' % tprob
-    ck.check(okZ, 'C07.D5.all-pairs', mod, Z or node, 'mfpts', u(Z) if Z else 'Z', 'Z = (I - T + W)^-1', 'the fundamental matrix must be inv(I - T + W)')
-    okM = False
-    if M is not None:
+
+    def is_temp_def(s):
+        if not (isinstance(s, ast.Assign) and len(s.targets) == 1 and isinstance(s.targets[0], ast.Name)):
+            return False
+        t = s.targets[0].id
+        uses = [n for n in walk_local(fn) if isinstance(n, ast.Name) and n.id == t and isinstance(n.ctx, ast.Load)]
+        return bool(uses) and all(fi.temp_value(n) is not None for n in uses)
+    elsewhere = []
+    for s in ([] if unresolved else walk_local(fn)):
+        if not isinstance(s, (ast.Assign, ast.AugAssign, ast.AnnAssign, ast.Return)) or s in analysed or s.value is None:
+            continue
+        if isinstance(s, ast.Return) and isinstance(s.value, ast.Name):
+            continue        # followed through its definitions above
+        if is_temp_def(s):
+            continue        # seen wherever the temporary is expanded
+        if lag in names_loaded(fi.expand(s.value)) or (isinstance(s, ast.Assign) and any(lag in names_loaded(t) for t in s.targets)):
+            elsewhere.append(s)
+    if not unresolved:
+        ck.check(not elsewhere, 'C07.D4.lag-linear', mod, elsewhere[0] if elsewhere else fn, F,
+                 u(elsewhere[0]) if elsewhere else 'uses of %s' % lag,
+                 'lagtime enters only as the top-level factor of the returned value',
+                 'lagtime is used elsewhere in mfpts (non-linear dependence on the lag time)')
+    d5_all_pairs(ck, mod, fn, fi, F, node, results['all-pairs'], tprob, pops, lag)
+    d3_sink_set(ck, mod, fn, fi, F, node, sset, results['sink-set'], tprob, sinks, pops, lag)
+
+
+def d5_all_pairs(ck, mod, fn, fi, F, node, results, tprob, pops, lag):
+    rule = 'C07.D5.all-pairs'
+    if not results:
+        ck.missing(rule, 'value returned in all-pairs mode')
+        return
+    wforms = []
+    for mk in ('np.array(%s)', 'np.asarray(%s)', 'np.vstack(%s)'):
+        wforms += [mk % ('[%s] * _N' % pops), mk % ('_N * [%s]' % pops), mk % ('[%s for __ in range(_N)]' % pops)]
+    wforms += ['np.tile(%s, (_N, 1))' % pops, 'np.outer(np.ones(_N), %s)' % pops, 'np.repeat(%s[None, :], _N, axis=0)' % pops,
+               'np.broadcast_to(%s, (_N, _N))' % pops]
+    eye = ['np.eye(_N)', 'np.identity(_N)', 'np.eye(_N, dtype=float)', 'np.eye(_N, _N)']
+    inv = ['np.linalg.inv(_X)', 'scipy.linalg.inv(_X)', 'linalg.inv(_X)', 'inv(_X)']
+    diag = ['np.diag(Z_)', 'Z_.diagonal()', 'np.diagonal(Z_)']
+    base = {tprob, pops, lag, 'W_', 'I_', 'Z_', 'Zd_', 'Zwrong_'}
+    for site, val in results:
+        seen = {'W': [], 'Z': [], 'Zwrong': [], 'Zunk': []}
+
+        def f(n):
+            if not isinstance(n, ast.expr):
+                return n
+            if match_any(wforms, n) is not None:
+                seen['W'].append(u(n))
+                return _sym('W_')
+            if match_any(eye, n) is not None:
+                return _sym('I_')
+            b = match_any(inv, n)
+            if b is not None:
+                arg = b['_X']
+                try:
+                    same = symx.equal(symx.lift(arg), symx.parse('I_ - %s + W_' % tprob))
+                except AnalysisIncomplete:
+                    same = None
+                if same:
+                    seen['Z'].append(u(n))
+                    return _sym('Z_')
+                if same is False or _closed_over(arg, base):
+                    seen['Zwrong'].append(u(n))
+                    return _sym('Zwrong_')
+                seen['Zunk'].append(u(n))
+                return n
+            if match_any(diag, n) is not None:
+                return _sym('Zd_')
+            return n
+        X = _rewrite(xp(fi, mod, val), f)
+        closed = _closed_over(X, base)
+        # W
+        if seen['W']:
+            ck.ok(rule, mod, site, seen['W'][0], 'W[i, j] = pi[j] (every ROW is the population vector)')
+        elif closed:
+            ck.bad(rule, mod, site, F, 'W in ' + u(X)[:160],
+                   'W must have the populations as ROWS (W[i, j] = pi[j]); a transposed W divides by the population of the origin state')
+        else:
+            ck.missing(rule, 'the matrix W of population rows in the all-pairs formula: %s' % u(X)[:120])
+        # Z
+        if seen['Zwrong']:
+            ck.bad(rule, mod, site, F, seen['Zwrong'][0][:200], 'the fundamental matrix must be inv(I - T + W)')
+        elif seen['Z']:
+            ck.ok(rule, mod, site, seen['Z'][0], 'Z = (I - T + W)^-1')
+        else:
+            ck.missing(rule, 'the fundamental matrix inv(I - T + W) in the all-pairs formula: %s' % u(X)[:120])
+        # formula
         try:
-            got = symx.lift(M.value, rename={'np.diag(Z)': 'Zdiag'})
-            want = symx.parse('%s * (Zdiag - Z) / W' % lag)
-            okM = symx.equal(got, want)
+            okM = symx.equal(symx.lift(X), symx.parse('%s * (Zd_ - Z_) / W_' % lag))
         except AnalysisIncomplete:
-            okM = False
-    ck.check(okM, 'C07.D5.all-pairs', mod, M or node, 'mfpts', u(M) if M else 'mfpts',
-             'm[i, j] = lag * (Z[j, j] - Z[i, j]) / W[i, j]  (np.diag(Z) broadcasts along rows)',
-             'the all-pairs table must be lagtime * (np.diag(Z) - Z) / W: np.diag(Z) as a ROW gives Z[j, j]; '
-             'a column (np.diag(Z)[:, None]) or Z - diag changes sign/orientation')
-    # sink-set branch
-    asg = {u(s.targets[0]): s for x in sset for s in ast.walk(x) if isinstance(s, ast.Assign)}
-    sn = asg.get(sinks)
-    ok = sn is not None and u(sn.value).startswith('np.array(%s, dtype=int)' % sinks) and u(sn.value).endswith('.flatten()')
-    ck.check(ok, 'C07.D3.mfpt-sinks', mod, sn or node, 'mfpts', u(sn) if sn else sinks, 'sinks normalised to a flat integer array', 'sinks must be converted to a flat int array')
-    imq = [c for x in sset for c in ast.walk(x) if isinstance(c, ast.Call) and call_name(c) == '_I_m_Q']
-    ok = len(imq) == 1 and u(imq[0].args[0]) == tprob and u(imq[0].args[1]) == sinks
-    ck.check(ok, 'C07.D3.mfpt-sinks', mod, imq[0] if imq else node, 'mfpts', u(imq[0]) if imq else '_I_m_Q', '(I - Q) masks the sinks', '_I_m_Q(tprob, sinks) expected')
-    c = asg.get('c')
-    okc = c is not None and u(c.value) == 'np.ones(n_states)'
-    pin = [(s, t) for x in sset for s in ast.walk(x) if isinstance(s, ast.Assign) for t in s.targets
-           if isinstance(t, ast.Subscript) and u(t.value) == 'c']
-    okp = len(pin) == 1 and u(pin[0][1].slice) == sinks and const_value(pin[0][0].value) == 0
-    sol = [x for y in sset for x in ast.walk(y) if isinstance(x, ast.Call) and (call_name(x) or '').endswith('linalg.solve')]
-    oks = len(sol) == 1 and u(sol[0].args[1]) == 'c'
-    order = okp and oks and fi.cfg.dominates(pin[0][0], fi.stmt(sol[0]))
-    ck.check(okc and okp and oks and order, 'C07.D3.mfpt-rhs', mod, pin[0][0] if pin else node, 'mfpts',
-             '%s ; %s ; %s' % (u(c) if c else '?', u(pin[0][0]) if pin else '?', u(sol[0]) if sol else '?'),
-             'right-hand side: one lag per step everywhere, zero on the sinks, set before the solve',
-             'the MFPT right-hand side must be ones with c[sinks] = 0 set BEFORE np.linalg.solve(I_m_Q, c)')
+            okM = False if closed else None
+        if okM is False and not (names_loaded(X) <= base):
+            okM = None
+        txt_bad = ('the all-pairs table must be lagtime * (np.diag(Z) - Z) / W: np.diag(Z) as a ROW gives Z[j, j]; '
+                   'a column (np.diag(Z)[:, None]) or Z - diag changes sign/orientation')
+        if okM is None:
+            ck.missing(rule, 'all-pairs formula not recognised: %s' % u(X)[:160])
+        else:
+            ck.check(okM, rule, mod, site, F, u(site),
+                     'm[i, j] = lag * (Z[j, j] - Z[i, j]) / W[i, j]  (np.diag(Z) broadcasts along rows)', txt_bad)
+
+
+def d3_sink_set(ck, mod, fn, fi, F, node, sset, results, tprob, sinks, pops, lag):
+    index_set(ck, 'C07.D3.mfpt-sinks', mod, fn, fi, F, sinks, sset, node)
+    nodes = _nodes(sset)
+    solves = _solver_calls(nodes)
+    if len(solves) != 1:
+        ck.missing('C07.D3.mfpt-rhs', 'exactly one linear solve in the sink-set branch of mfpts (found %d)' % len(solves))
+        return
+    solve = solves[0]
+    ss = fi.stmt(solve)
+    imq = _imq_call(ck, 'C07.D3.mfpt-sinks', mod, fn, fi, F, solve)
+    if imq is not None:
+        if imq not in nodes:
+            ck.missing('C07.D3.mfpt-sinks', 'the %s call of the sink-set branch' % HELPER)
+        else:
+            _imq_args(ck, 'C07.D3.mfpt-sinks', mod, fi, F, imq, tprob, [sinks], {sinks},
+                      '(I - Q) masks the sinks', '_I_m_Q(tprob, sinks) expected')
+    rule = 'C07.D3.mfpt-rhs'
+    c = arg_or_kw(solve, 1, 'b')
+    if not isinstance(c, ast.Name):
+        ck.missing(rule, 'right-hand side of the MFPT solve is not a named array: %s' % u(c)[:80])
+        return
+    cn = c.id
+    cdefs = [s for s in assigns_to(fn, cn)]
+    if len(cdefs) != 1 or not isinstance(cdefs[0], ast.Assign) or fi.def_value(cdefs[0], cn) is None or cdefs[0] not in nodes:
+        ck.missing(rule, 'single definition of the right-hand side %s in the sink-set branch' % cn)
+        return
+    ones = ['np.ones(_N)', 'np.ones((_N,))', 'np.ones(_N, dtype=float)', 'np.ones(_N, float)', 'np.ones_like(_V, dtype=float)',
+            'np.full(_N, 1.0)', 'np.full(_N, 1)']
+    v = classify(xp(fi, mod, fi.def_value(cdefs[0], cn), stop=(tprob, sinks, pops)), ones, scope={tprob, sinks, pops})
+    okc = ck.decide(v, rule, mod, cdefs[0], F, u(cdefs[0]), 'right-hand side: one lag per step everywhere',
+                    'the MFPT right-hand side must be a vector of ones (one lag time per step)')
+    if okc:
+        _pins(ck, rule, mod, fn, fi, F, cn, {sinks: 0}, (tprob, sinks, pops), ss,
+              'zero on the sinks, set before the solve',
+              'the MFPT right-hand side must be ones with c[sinks] = 0 set BEFORE np.linalg.solve(I_m_Q, c)',
+              construct_missing='%s[%s] = 0: MISSING' % (cn, sinks), after=cdefs[0])
+    # what is returned is lag * <the solution>
+    st = fi.xu(solve)
+    for rsite, val in results:
+        nums, dens = mul_factors(xp(fi, mod, val))
+        rest = [n for n in nums if not (isinstance(n, ast.Name) and n.id == lag)]
+        if not dens and len(rest) == 1 and u(rest[0]) in (st, st + '.flatten()', st + '.ravel()'):
+            ck.ok(rule, mod, rsite, u(rsite), 'the returned times are the solution of (I - Q) t = c')
+        elif not dens and len(rest) == 1 and isinstance(rest[0], ast.Name) and rest[0].id == cn:
+            ck.bad(rule, mod, rsite, F, u(rsite), 'the right-hand side, not the solution of the linear system, is returned')
+        else:
+            ck.missing(rule, 'returned sink-set value is not lagtime * <solution of the linear solve>: %s' % u(rsite)[:120])
